@@ -145,7 +145,7 @@ def run(ctx, prog):
                     covered_new.add(e[2])
                 elif e[0] == 'delete':
                     covered_del.add(e[2])
-        ctx.require(info['created'] and min(info['created']) >= 1, 'init_mms: the simulation creates no catalogue object (get_list_mms not followed)')
+        ctx.require(info['created'] and max(info['created']) >= 1, 'init_mms: the simulation creates no catalogue object (get_list_mms not followed)')
         incomplete = bool(res['complete'])
 
         def ob(rule_key, problems, where, sample, incomplete_=False):
